@@ -185,6 +185,7 @@ def world? (kv : List (String × String)) : Option World := do
   | ["resp", st, body] => do pure (.http (.resp (← st.toInt?) (← optStr? body)))
   | ["real", st, body, red, ref] => do pure (.http (clientGet (← bool? ref) (← red.toNat?) (← st.toInt?) (← str? body)))
   | ["txt", l] => do pure (.txt (some (← list? ";" str? l)))
+  | ["realtxt", fail, l] => do pure (.txt (clientLookupTxt (← bool? fail) (← list? ";" str? l)))
   | ["alert", n] => do pure (.tls (.alert (← n.toNat?)))
   | ["other"] => pure (.tls .other)
   | ["conn", proto] => do
